@@ -42,8 +42,9 @@ HopByHop == {"Connection", "Keep-Alive", "Proxy-Connection", "Te", "Trailer", "T
 \* a client header line: key, value, spelling of the name on the wire
 L(k, v, sp) == [k |-> k, v |-> v, sp |-> sp]
 
-SpoofLines == << L(JA3K, "evil3", "canon"), L(JA3K, "evil3b", "lower"), L(JA3K, "evil3c", "upper"),
-                 L(JA4K, "evil4", "canon"), L(H2K, "evilh2", "lower"), L(CUSK, "evilc", "canon") >>
+\* (an empty first value makes Header.Get return "" although the name is present - and a later line may carry the payload)
+SpoofLines == << L(JA3K, "", "canon"), L(JA3K, "evil3", "canon"), L(JA3K, "evil3b", "lower"), L(JA3K, "evil3c", "upper"),
+                 L(JA4K, "evil4", "canon"), L(H2K, "", "canon"), L(H2K, "evilh2", "lower"), L(CUSK, "evilc", "canon") >>
 FwdLines   == << L(XFF, "9.9.9.9", "canon"), L(XFF, "8.8.8.8, 7.7.7.7", "lower"), L(XFP, "gopher", "canon"),
                  L(XFH, "evil.example", "canon"), L(FWD, "for=1.2.3.4;proto=gopher", "canon") >>
 KeepLines  == << L("X-Keep", "1", "canon"), L("X-Multi", "a", "canon"), L("X-Multi", "b", "lower"),
